@@ -110,7 +110,8 @@ CLAIMED = {
               "the phrase occurs contiguously; (2) for EVERY phrase of >= 2 terms, immediate repetitions included, the "
               "frequency is positive exactly for the documents containing the phrase and lies between the non-overlapping "
               "and the overlapping occurrence counts (C03_every_phrase_bounds; the same-term step is characterised on all "
-              "2^18 payloads by a computed check). Both sentences of the property are theorems. Check = real phrase "
+              "2^18 payloads by a computed check), and the exact count holds for every phrase mentioning two different terms "
+              "(C03_exact_count_unless_one_repeated_term). Both sentences of the property are theorems. Check = real phrase "
               "search vs model vs spec / bounds oracle."),
         design_ref="DESIGN.md 7 (C03)",
         note=COMMON_NOTE + "No axioms.",
@@ -195,10 +196,11 @@ CLAIMED = {
               "equals the history-free answer, so a repeated query returns its first answer after ANY operation sequence, "
               "arrays are only appended and the heap only grows. Generic form: two facts about the immutable postings are "
               "explicit premises (slicing twice = slicing once; a document's phrase count depends only on its own "
-              "postings). PREMISE-FREE form (C07_indexed_*): for every indexed corpus within the limits both are proved, "
-              "on a static boolean operation domain that excludes only, on a view, phrases of >= 2 terms with a position "
-              "range or an immediately repeated term (everything else incl. ranged tf, views of views, copies, scores "
-              "is unrestricted). The check runs the "
+              "postings). UNCONDITIONAL form (C07_every_output_is_history_free, C07_repeat_same, C07_history_free): both "
+              "premises are PROVED for every indexed corpus - phrase locality for every phrase incl. immediate repetitions "
+              "and every position range (View/View_Phrase3.v) - so for every non-empty corpus within the limits and "
+              "EVERY operation sequence (ranged tf, phrases, scores, views of views, copies, cache warming) every output "
+              "is the history-free answer. The check runs the "
               "machine against the real objects op by op on random histories, repeats every query at the end and under "
               "another history, and checks earlier returned arrays are unmodified."),
         design_ref="DESIGN.md 7 (C07)",
@@ -265,9 +267,9 @@ CLAIMED = {
               "handle reset of slicing): in EVERY schedule a finished thread holds the history-free answer computed on "
               "the initial pool; any schedule that lets every thread finish gives the results of the serial schedule; "
               "the serial schedule always finishes. Generic form: the two postings premises of C07 (the phrase one in a "
-              "per-term mixed form) are explicit; PREMISE-FREE form (C20_indexed_*): proved for every indexed corpus, any "
-              "pool reached by an in-domain history, the only restriction being concurrent phrase queries on a view "
-              "with an immediately repeated term; none at all on a fresh index. PARTIAL for the runtime: the real "
+              "per-term mixed form) are explicit; UNCONDITIONAL form (C20_every_interleaving, C20_schedule_eq_serial): for every "
+              "non-empty indexed corpus, any pool reached by any history, any concurrent queries and any schedule "
+              "(premises proved in View/View_Phrase3.v, Conc/Conc_Indexed2.v). PARTIAL for the runtime: the real "
               "scheduler, preemption inside an action, dict atomicity under the GIL and nogil sections cannot be "
               "exhibited by the model. The check runs 2..16 real threads released "
               "from a barrier at switch intervals down to 1 microsecond against shared arrays and views, compares with "
